@@ -396,6 +396,15 @@ func (cs *Contracts) parseLines(lines []string, lineNos []int, file, pkgPath str
 					return errf("bad at-call")
 				}
 				c.Pat, rest = rest[:sp], strings.TrimSpace(rest[sp:])
+			case strings.HasPrefix(l, "after-call "):
+				// after-call PAT {P} [label] invariant E — proof rule for higher-order callees, see FEnc.afterCall
+				c.Kind = "aftercall"
+				rest = strings.TrimSpace(l[len("after-call "):])
+				sp := strings.IndexAny(rest, " \t")
+				if sp < 0 {
+					return errf("bad after-call")
+				}
+				c.Pat, rest = rest[:sp], strings.TrimSpace(rest[sp:])
 			case strings.HasPrefix(l, "at-return "):
 				c.Kind = "atreturn"
 				rest = strings.TrimSpace(l[len("at-return "):])
@@ -425,6 +434,12 @@ func (cs *Contracts) parseLines(lines []string, lineNos []int, file, pkgPath str
 					return errf("expected %q in %q", kw, rest)
 				}
 				rest = rest[len(kw):]
+			}
+			if c.Kind == "aftercall" {
+				if !strings.HasPrefix(rest, "invariant ") {
+					return errf("expected \"invariant \" in %q", rest)
+				}
+				rest = rest[len("invariant "):]
 			}
 			c.Src = rest
 			if c.Kind == "decreases" {
